@@ -329,7 +329,13 @@ class Flow:
                 if isinstance(st, ast.Assign) and len(st.targets) == 1 and isinstance(st.targets[0], ast.Attribute):
                     d = dotted(st.targets[0])
                     if d:
-                        self._attr_stores.setdefault(d, []).append(st)
+                        self._attr_stores.setdefault(d, []).append((st, None))
+                elif isinstance(st, ast.Assign) and len(st.targets) == 1 and isinstance(st.targets[0], ast.Tuple) and \
+                        not isinstance(st.value, ast.Tuple) and all(isinstance(e, (ast.Attribute, ast.Name)) for e in st.targets[0].elts):
+                    for i, e in enumerate(st.targets[0].elts):
+                        d = dotted(e) if isinstance(e, ast.Attribute) else None
+                        if d:
+                            self._attr_stores.setdefault(d, []).append((st, i))
                 elif isinstance(st, (ast.Assign, ast.AugAssign, ast.AnnAssign, ast.For, ast.With)):
                     for t in ast.walk(st):
                         if isinstance(t, ast.Attribute) and isinstance(t.ctx, ast.Store):
@@ -349,7 +355,21 @@ class Flow:
         stores = self._attr_stores.get(attr)
         if not stores or len(stores) != 1 or stores[0] is None:
             return None
-        st = stores[0]
+        st, idx = stores[0]
+        if idx is not None:
+            # element of a tuple assignment: self.a, self.b = f(x)  ->  self.a is f(x)[0]
+            if not hasattr(self, "_tuple_elems"):
+                self._tuple_elems: dict[tuple[int, int], ast.Assign] = {}
+            key = (id(st), idx)
+            if key not in self._tuple_elems:
+                pseudo = ast.Assign(targets=[st.targets[0].elts[idx]],
+                                    value=ast.Subscript(value=st.value, slice=ast.Constant(idx), ctx=ast.Load()))
+                ast.copy_location(pseudo, st)
+                ast.fix_missing_locations(pseudo)
+                self._tuple_elems[key] = pseudo
+                self.cfg.node_of[id(pseudo)] = self.cfg.node_for(st)
+            real = st
+            st = self._tuple_elems[key]
         sn = self.cfg.node_for(st)
         if sn == at or not self.cfg.dominates(sn, at):
             return None
